@@ -1831,7 +1831,7 @@ _O = 'pyglove.core.symbolic.object'
 
 CANARIES_BY_PROP = {
     'C01': {
-        'relocate_never_copies': _canary(_B, 'Symbolic', '_relocate_if_symbolic',
+        'relocate_never_copies': _canary(_B, 'Symbolic', '_copy_if_attached',
                                          'value = value.clone()', 'pass'),
         'dict_paths_not_updated': _canary(_D, 'Dict', '_update_children_paths',
                                           'v.sym_setpath(utils.KeyPath(k, new_path))', 'pass'),
@@ -2283,6 +2283,27 @@ def _pairs(a, b, path=()):
 class C07Oracle(OracleBase):
     def after(self, step, op, out, pre, post, pre_nodes, interrupted):
         k = op['k']
+        if not hasattr(self, 'interrupted_roots'):
+            self.interrupted_roots = set()
+            self._keep_roots = []
+        if interrupted and out.root_index is not None and \
+                out.root_index < len(self.forest.roots):
+            # a user callback raised in the middle of a multi-step mutation (e.g. the
+            # refill of a typed Dict by clear()): what that tree looks like afterwards is
+            # the callback's doing; clones of it are not judged
+            root = self.forest.roots[out.root_index]
+            self.interrupted_roots.add(id(root))
+            self._keep_roots.append(root)
+        if out.new_roots and isinstance(out.target, pg.Symbolic) and \
+                id(out.target.sym_root) in self.interrupted_roots:
+            # copies of such a tree (clone, twin_assign, +, ...) inherit the taint
+            for nr in out.new_roots:
+                self.interrupted_roots.add(id(nr))
+                self._keep_roots.append(nr)
+            if k in CLONE_OPS:
+                self.probes['clone_of_interrupted_tree_unjudged'] = \
+                    self.probes.get('clone_of_interrupted_tree_unjudged', 0) + 1
+                return
         if out.status == 'ok' and k in CLONE_OPS and out.new_roots:
             t, r = out.target, out.new_roots[-1]
             deep = k in ('clone', 'deepcopy')
@@ -2605,7 +2626,7 @@ CANARIES_BY_PROP['C07'] = {
     'object_clone_drops_accessor_flag': _canary(
         _O, 'Object', '_sym_clone', 'return cloned.set_accessor_writable(self._accessor_writable)',
         'return cloned'),
-    'relocate_never_copies': _canary(_B, 'Symbolic', '_relocate_if_symbolic',
+    'relocate_never_copies': _canary(_B, 'Symbolic', '_copy_if_attached',
                                      'value = value.clone()', 'pass'),
     'dict_clone_drops_value_spec': _canary(
         _D, 'Dict', '_sym_clone', 'value_spec=self._value_spec,', 'value_spec=None,'),
@@ -2822,7 +2843,10 @@ class C09Oracle(OracleBase):
                          f'(events went to {len(events)} other receiver(s))', step)
                 return
             # children before parents
-            order = [rid for rid, _ in events if rid in expected]
+            order = [rid for ei, (rid, _) in enumerate(events)
+                     if rid in expected and ei not in f.unattributed]
+            if batch_shift:
+                order = []      # receivers move while an overlapping batch is applied
             for i in range(len(order)):
                 for j in range(i + 1, len(order)):
                     pi, pj = expected[order[i]][1], expected[order[j]][1]
@@ -2875,8 +2899,6 @@ ORACLES['C09'] = C09Oracle
 
 
 CANARIES_BY_PROP['C09'] = {
-    'validate_foreign_member_in_place': _canary(
-        _D, 'Dict', '_formalized_value', 'if isinstance(value, (dict, list)):', 'if False:'),
     'notify_top_down': _canary(
         _B, 'Symbolic', '_notify_field_updates', 'reverse=True):', 'reverse=False):'),
     'cache_reset_skipped': _canary(
